@@ -33,9 +33,19 @@ func init() {
 		return one(sc)
 	}
 	generators["C08"] = func(seed uint64, tier string) []*Scenario {
-		p := profile{maxFiles: 6, maxFaults: 4, orders: true, fineNet: true, recvErrs: 3,
+		p := profile{maxFiles: 6, maxFaults: 4, orders: true, fineNet: true, recvErrs: 3, recvCrashes: 1, // (a restarting receiver answers 503 for a while)
 			faultKinds: []string{"cut_req_at", "cut_after_recorded", "cut_after_recorded", "drop_resp", "cut_resp_at", "stall"}}
 		sc := genW1("C08", seed, p)
+		for _, a := range sc.Env {
+			if a.Kind == "crash-receiver" {
+				// early, short, and with a start-up recovery that takes its time:
+				// the sender's requests then meet "503 not ready"
+				a.At = time.Duration(500+int(seed>>9)%12000) * time.Millisecond
+				sc.DownTime = time.Second
+				sc.GateWeight = map[string]int{"stage.recover.begin": 1}
+			}
+		}
+		sort.SliceStable(sc.Env, func(i, j int) bool { return sc.Env[i].At < sc.Env[j].At })
 		smallChunks(sc, seed)
 		return one(sc)
 	}
